@@ -10,6 +10,8 @@ import Hpv.Matrix
 import Hpv.GraphModel
 import Hpv.Onto
 import Hpv.Sim
+import Hpv.Resnik
+import Hpv.Sorting
 open Lean
 
 namespace Drv
@@ -253,6 +255,43 @@ def metaCodec (j : Json) : Except String Json := do
   return Json.mkObj [("table_ok", TableOk forb), ("enc", encJ), ("dec", dec)]
 end C15
 
+/-! ### C10 -/
+section C10
+open Hpv.GM Hpv.Resnik
+
+def keyCps (k : Key) : List Nat := k.1 ++ 58 :: k.2
+def keyOfCps (s : List Nat) : Option Key := (Hpv.TermId.fromCurie s).map (fun t => (t.pfx, t.id))
+
+/-- a graph helper as a function on CURIE strings (unknown ids give the empty list; never happens for graph nodes) -/
+def closureFn (g : G Key) (q : Q) (incl : Bool) (s : List Nat) : List (List Nat) :=
+  match keyOfCps s with
+  | none => []
+  | some k => match helper keyOrd g q (some k) incl with
+    | .ok l => l.map keyCps
+    | .error _ => []
+
+def resnikPrecalc (j : Json) : Except String Json := do
+  let edges ← (← j.getObjValAs? (Array Json) "edges").mapM edgeOfJson
+  let pa ← j.getObjValAs? String "pa"
+  let icl ← j.getObjValAs? (List (String × Int)) "ic"
+  let pairs ← j.getObjValAs? (List (String × String)) "pairs"
+  match build keyOrd owlThing .indexed edges.toList with
+  | .error e => return Json.mkObj [("build_err", errName e)]
+  | .ok g =>
+    let ic : List Nat → Int := fun s => ((icl.find? (fun p => strToCps p.1 = s)).map (·.2)).getD 0
+    let groups := closureFn g .children false (strToCps pa)
+    let st := precalc groups (closureFn g .descendants true) (closureFn g .ancestors true) ic
+    return Json.mkObj [("len", toJson (Hpv.Sim.len st)),
+      ("items", toJson ((Hpv.Sim.items st).map fun t => Json.arr #[cpsToStr t.1, cpsToStr t.2.1, toJson t.2.2])),
+      ("gets", toJson (pairs.map fun p => Hpv.Sim.get st (strToCps p.1) (strToCps p.2)))]
+end C10
+
+/-! ### C13 -/
+def argsortReplay (j : Json) : Except String Json := do
+  let ids ← j.getObjValAs? (List String) "ids"
+  let trace ← j.getObjValAs? (List (Nat × Nat)) "trace"
+  return toJson (Hpv.Sorting.argsort ids trace)
+
 def handle (j : Json) : Except String Json := do
   let op ← j.getObjValAs? String "op"
   match op with
@@ -263,6 +302,8 @@ def handle (j : Json) : Except String Json := do
   | "graph.batch" => graphBatch j
   | "onto.lookup" => ontoLookup j
   | "sim.hist" => simHist j
+  | "argsort.replay" => argsortReplay j
+  | "resnik.precalc" => resnikPrecalc j
   | "meta.codec" => metaCodec j
   | "c17.csr" => c17csr j
   | _ => throw s!"unknown op {op}"
